@@ -79,6 +79,54 @@ theorem generic_identity_mass_3d (M0 M1 M2 : List (List α)) (Q0 Q1 Q2 : Nat) (w
   simp only [List.getD_cons_zero, List.getD_cons_succ]
   ring
 
+/-- product of three Gram entries = triple tensor-product Gauss sum -/
+theorem gram3_mul (Q0 Q1 Q2 : Nat) (w0 w1 w2 : Nat → α) (A0 B0 A1 B1 A2 B2 : Nat → Nat → α) (i0 j0 i1 j1 i2 j2 : Nat) :
+    gram Q0 w0 A0 B0 i0 j0 * (gram Q1 w1 A1 B1 i1 j1 * gram Q2 w2 A2 B2 i2 j2) =
+      ∑ a ∈ range Q0, ∑ b ∈ range Q1, ∑ c ∈ range Q2,
+        (B0 j0 a * (B1 j1 b * B2 j2 c)) * (A0 i0 a * (A1 i1 b * A2 i2 c)) * (w0 a * (w1 b * w2 c)) := by
+  unfold gram
+  rw [Finset.sum_mul_sum, Finset.sum_mul]
+  apply Finset.sum_congr rfl; intro a _
+  rw [Finset.mul_sum]
+  apply Finset.sum_congr rfl; intro b _
+  rw [Finset.mul_sum]
+  apply Finset.sum_congr rfl; intro c _
+  ring
+
+/-- **stiffness, 3-D.**  With `JacInv = 1` the integrand is `(∂ₓu∂ₓv + ∂ᵧu∂ᵧv + ∂_zu∂_zv)·W`; its full
+Gauss sum equals `bsp_stiffness_3d`'s Kronecker sum at the Kronecker index (one rule per axis). -/
+theorem generic_identity_stiffness_3d (M0 K0 M1 K1 M2 K2 : List (List α)) (Q0 Q1 Q2 : Nat) (w0 w1 w2 : Nat → α)
+    (N0 D0 N1 D1 N2 D2 : Nat → Nat → α)
+    (hM0 : ∀ i j, get2 M0 i j = gram Q0 w0 N0 N0 i j) (hK0 : ∀ i j, get2 K0 i j = gram Q0 w0 D0 D0 i j)
+    (hM1 : ∀ i j, get2 M1 i j = gram Q1 w1 N1 N1 i j) (hK1 : ∀ i j, get2 K1 i j = gram Q1 w1 D1 D1 i j)
+    (hM2 : ∀ i j, get2 M2 i j = gram Q2 w2 N2 N2 i j) (hK2 : ∀ i j, get2 K2 i j = gram Q2 w2 D2 D2 i j)
+    (hr0 : matRows K0 = matRows M0) (hc0 : matCols K0 = matCols M0)
+    (hr1 : matRows K1 = matRows M1) (hc1 : matCols K1 = matCols M1)
+    (hr2 : matRows K2 = matRows M2) (hc2 : matCols K2 = matCols M2)
+    (i0 i1 i2 j0 j1 j2 : Nat) (hi0 : i0 < matRows M0) (hi1 : i1 < matRows M1) (hi2 : i2 < matRows M2)
+    (hj0 : j0 < matCols M0) (hj1 : j1 < matCols M1) (hj2 : j2 < matCols M2) :
+    combine [Q0, Q1, Q2] (fun q =>
+        ((D0 j0 (q.getD 0 0) * (N1 j1 (q.getD 1 0) * N2 j2 (q.getD 2 0))) *
+           (D0 i0 (q.getD 0 0) * (N1 i1 (q.getD 1 0) * N2 i2 (q.getD 2 0))) +
+         (N0 j0 (q.getD 0 0) * (D1 j1 (q.getD 1 0) * N2 j2 (q.getD 2 0))) *
+           (N0 i0 (q.getD 0 0) * (D1 i1 (q.getD 1 0) * N2 i2 (q.getD 2 0))) +
+         (N0 j0 (q.getD 0 0) * (N1 j1 (q.getD 1 0) * D2 j2 (q.getD 2 0))) *
+           (N0 i0 (q.getD 0 0) * (N1 i1 (q.getD 1 0) * D2 i2 (q.getD 2 0)))) *
+          (w0 (q.getD 0 0) * (w1 (q.getD 1 0) * w2 (q.getD 2 0)))) =
+      get2 (stiffness3d M0 K0 M1 K1 M2 K2) (i0 * (matRows M1 * matRows M2) + (i1 * matRows M2 + i2))
+        (j0 * (matCols M1 * matCols M2) + (j1 * matCols M2 + j2)) := by
+  rw [kron_path_stiffness_3d M0 K0 M1 K1 M2 K2 Q0 Q0 Q1 Q1 Q2 Q2 w0 w0 w1 w1 w2 w2 N0 D0 N1 D1 N2 D2
+    hM0 hK0 hM1 hK1 hM2 hK2 hr0 hc0 hr1 hc1 hr2 hc2 i0 i1 i2 j0 j1 j2 hi0 hi1 hi2 hj0 hj1 hj2,
+    mul_add, gram3_mul, gram3_mul, gram3_mul, combine_three,
+    ← Finset.sum_add_distrib, ← Finset.sum_add_distrib]
+  apply Finset.sum_congr rfl; intro a _
+  rw [← Finset.sum_add_distrib, ← Finset.sum_add_distrib]
+  apply Finset.sum_congr rfl; intro b _
+  rw [← Finset.sum_add_distrib, ← Finset.sum_add_distrib]
+  apply Finset.sum_congr rfl; intro c _
+  simp only [List.getD_cons_zero, List.getD_cons_succ]
+  ring
+
 /-! ## chained with C01: the value the generated `entry_impl` computes -/
 
 /-- **`entry_impl` of the compiled mass assembler with identity geometry = Kronecker entry (2-D).**
@@ -130,5 +178,32 @@ theorem generic_entry_stiffness_2d (suppU suppV : List Intv)
   rw [h]
   exact generic_identity_stiffness_2d M1 K1 M2 K2 Q1 Q2 w1 w2 N1 D1 N2 D2 N1' D1' N2' D2'
     hM1 hK1 hM2 hK2 hr1 hc1 hr2 hc2 i1 i2 j1 j2 hi1 hi2 hj1 hj2
+
+/-- **`entry_impl` of the compiled mass assembler with identity geometry = Kronecker entry (3-D).** -/
+theorem generic_entry_mass_3d (suppU suppV : List Intv)
+    (M0 M1 M2 : List (List α)) (Q0 Q1 Q2 : Nat) (w0 w1 w2 : Nat → α) (V0 U0 V1 U1 V2 U2 : Nat → Nat → α)
+    (h0 : ∀ i j, get2 M0 i j = gram Q0 w0 V0 U0 i j)
+    (h1 : ∀ i j, get2 M1 i j = gram Q1 w1 V1 U1 i j) (h2 : ∀ i j, get2 M2 i j = gram Q2 w2 V2 U2 i j)
+    (i0 i1 i2 j0 j1 j2 : Nat) (hi0 : i0 < matRows M0) (hi1 : i1 < matRows M1) (hi2 : i2 < matRows M2)
+    (hj0 : j0 < matCols M0) (hj1 : j1 < matCols M1) (hj2 : j2 < matCols M2)
+    (hU : ∀ q ∈ loopNest [Q0, Q1, Q2], ¬ InSupp suppU q →
+      U0 j0 (q.getD 0 0) * (U1 j1 (q.getD 1 0) * U2 j2 (q.getD 2 0)) = 0)
+    (hV : ∀ q ∈ loopNest [Q0, Q1, Q2], ¬ InSupp suppV q →
+      V0 i0 (q.getD 0 0) * (V1 i1 (q.getD 1 0) * V2 i2 (q.getD 2 0)) = 0)
+    (hfU : SuppFits suppU [Q0, Q1, Q2]) (hfV : SuppFits suppV [Q0, Q1, Q2]) :
+    entryImpl2 suppU suppV (zeros [Q0, Q1, Q2]) (fun q =>
+        (U0 j0 (q.getD 0 0) * (U1 j1 (q.getD 1 0) * U2 j2 (q.getD 2 0))) *
+        (V0 i0 (q.getD 0 0) * (V1 i1 (q.getD 1 0) * V2 i2 (q.getD 2 0))) *
+          (w0 (q.getD 0 0) * (w1 (q.getD 1 0) * w2 (q.getD 2 0)))) =
+      get2 (mass3d M0 M1 M2) (i0 * (matRows M1 * matRows M2) + (i1 * matRows M2 + i2))
+        (j0 * (matCols M1 * matCols M2) + (j1 * matCols M2 + j2)) := by
+  have h := Pyiga.Props.C01.entry_eq_full_sum (α := α) (Jet := α) suppU suppV [Q0, Q1, Q2]
+    (fun q => U0 j0 (q.getD 0 0) * (U1 j1 (q.getD 1 0) * U2 j2 (q.getD 2 0)))
+    (fun q => V0 i0 (q.getD 0 0) * (V1 i1 (q.getD 1 0) * V2 i2 (q.getD 2 0)))
+    (fun x y q => x * y * (w0 (q.getD 0 0) * (w1 (q.getD 1 0) * w2 (q.getD 2 0))))
+    (by intro y q; ring) (by intro x q; ring) hU hV hfU hfV
+  rw [h]
+  exact generic_identity_mass_3d M0 M1 M2 Q0 Q1 Q2 w0 w1 w2 V0 U0 V1 U1 V2 U2 h0 h1 h2
+    i0 i1 i2 j0 j1 j2 hi0 hi1 hi2 hj0 hj1 hj2
 
 end Pyiga.Props.C09
